@@ -1,15 +1,16 @@
 """C06 - see properties.jsonl; DESIGN.md section 5."""
 from ._generic import run_property
 
-EXPLANATION = 'Bounded stand-in: metamorphic contracts partial read vs full read on one handle (column subsets, row-group slices/picks, iter_row_groups, head(n) for every n, index choices, file-like, pickle/copy, compositions) and reported counts vs rows read.'
+EXPLANATION = 'Mixed. P (discharged for every number of row groups and every row count, from the real source of api.py): to_pandas slices tile the pre-allocated output in row-group order in all five read modes, head takes a sufficient prefix, __getitem__ copies the footer and leaves the parent untouched, count/len/info use the handle-own row groups, RangeIndex regeneration has exactly size labels. B (labelled bounded): metamorphic contracts partial read vs full read on one handle (column subsets, row-group slices/picks, iter_row_groups, head(n) for every n, index choices, file-like, pickle/copy, compositions) and reported counts vs rows read.'
 
 
 def p_parts():
-    return []
+    from ._partial import p_partial
+    return [p_partial]
 
 
 def run(ctx):
-    return run_property(ctx, 'exploration', EXPLANATION, p_parts=p_parts(), b_modules=['c06_partial'],
+    return run_property(ctx, 'other', EXPLANATION, p_parts=p_parts(), b_modules=['c06_partial'],
                         assumptions=["pandas / numpy / cramjam behaviour inside every opaque value",
                                      "the oracle (plain pandas / the spec library under /verif/spec) is a faithful reading of the property"],
                         trusted=["bounded layer: enumerated inputs only; nothing outside the stated bound is covered"])
